@@ -38,6 +38,26 @@ R = {
     "C12": ("adc_bit_resolution setter uses `value not in range(4, 64)`", "exactly 64 through the attribute or a sweep", "detected (C12/field/characteristics.adc_bit_resolution/setter_eq_documented, sweep/same_limits)", "detected", None),
     "C13": ("Photon.array setter releases a held 3-D cube before validating the 2-D value", "container holding multi-wavelength photons, then an invalid 2-D assignment",
             "MISSED (2-D assignments were only tried on empty / 2-D containers)", "detected (C13/photon3d/reject_keeps_content)", "2-D set / array_2d / update with valid and invalid arrays on containers holding a cube; concrete replay of photon3d obligations with real xarray"),
+    "C14": ("convert_df_to_array: `(position / pixel_size).astype(int)` (truncation toward zero) instead of floor_divide",
+            "a cluster less than one pixel outside the top / left edge (position in (-pixel_size, 0))", "detected (C14/cluster/credit_pixel ...)", "detected", None),
+    "C15": ("run_cdm_serial computes every species' capture from a per-column snapshot of the packet taken before the species loop",
+            "serial direction, >= 2 trap species, strong capture, >= 3 columns (the surplus trapped charge is released into trailing pixels)",
+            "MISSED (quick: one species; thorough with 2 species over 3 transfers: 37 inconclusive NRA queries, one non-reproducing model)",
+            "detected (C15/cdm_state/serial/pixel_plus_trapped_never_grows, params 0 and 3) in seconds",
+            "inductive step of the transfer kernel from an arbitrary valid trap state (the kernel's np.zeros is replaced by a symbolic occupancy array that stays observable): "
+            "pixel + trapped never grows, nothing negative; concrete physics vectors with beta = 1 keep the query piecewise linear"),
+    "C16": ("apply_sar_adc normalises the signal by max_volt once and starts the reference at 0.5", "a range maximum with a long mantissa (3.3, 0.7 V) and a voltage within 1 ulp of a code transition: sar_adc and the zero-noise noisy variant disagree by one code",
+            "MISSED (zero-noise equivalence was proved in real arithmetic only, where both forms agree)", "detected (C16/sar_noise/zero_noise_equiv/fp,...: x = 0x1.7199999999999p+1 for 3.3 V / 4 bit)",
+            "exact IEEE-754 layer for the zero-noise equivalence (cvc5, concrete range maxima 3.3 / 0.7 / 1.8 / 0.2048 / 5.0 V); SymFP coerces constant selections (value * mask) exactly"),
+    "C17": ("stripe_pattern: compute_pattern memoised with lru_cache and the flux scaling done in place (`*=`) on the cached array", "stripe_pattern called at least twice in a process with time_step / time_scale != 1",
+            "detected (C17/nondestructive/partition_invariant, depends_only_on_interval ... stripes)", "detected", None),
+    "C18": ("Detector.from_dict restores a non-empty cluster table through add_charge_dataframe after assigning the charge array", "a detector whose Charge.frame holds at least one in-bounds cluster",
+            "detected (C18/asdf_standin/roundtrip/*/charge_frame, containers ...)", "detected", None),
+    "C19": ("Outputs.save_to_file rescales into the shared `data` variable for png/jpg and falls through to the next writer", "sequential observation / deprecated exposure path with an image-bucket format list where a picture format precedes a lossless one",
+            "MISSED (contents handed to the writers were not observed at all)", "detected (C19/content/writer_receives_bucket/image/jpg+fits ...)",
+            "content tasks: Outputs.save_to_file with recording writers and a symbolic image / pixel bucket, over ordered format lists (all pairs of 5 formats plus longer lists); replay writes real files and reads them back"),
+    "C20": ("_get_file_stamp keys the image cache on whole seconds of mtime plus size", "same path rewritten with same-size content within the same second", "MISSED (the rewrite changed both mtime seconds and size)",
+            "detected (C20/cache/fresh_after_rewrite/*/same_second_same_size_1ns ...)", "seven rewrite cases per loader: +1 ns, +50 ms, +0.9 s, +1 s, -1 us, -1 s with equal size, and equal mtime with size + 1"),
 }
 
 
